@@ -210,3 +210,119 @@ func remove(xs []string, x string) []string {
 	}
 	return r
 }
+
+// holdem-deal (C10): real hands on CONSTRUCTED decks - boards and hole cards drawn from pools that
+// hit the category boundaries (monotone / paired / connected / wheel boards; holes sharing suits and
+// ranks with the board), both decks and ranking tables, 2 hole cards and 4-with-2-required -
+// played passively to the river so that every street's published evaluation is recorded.
+func cmdHoldemDeal(args []string) {
+	fs := flag.NewFlagSet("holdem-deal", flag.ExitOnError)
+	out := fs.String("o", "deal.ndjson", "")
+	scripts := fs.String("scripts", "", "")
+	runs := fs.Int("runs", 100, "")
+	seed := fs.Int64("seed", 1, "")
+	fs.Parse(args)
+	r := rand.New(rand.NewSource(*seed))
+	tw := newTraceWriter(*out)
+	var hs []*hand
+	for k := 0; k < *runs; k++ {
+		short := r.Intn(3) == 0
+		base := pf.NewStandardDeckCards()
+		if short {
+			base = pf.NewShortDeckCards()
+		}
+		holeN, req := 2, 0
+		if r.Intn(3) == 0 {
+			holeN, req = 4, 2
+		}
+		n := 2 + r.Intn(5)
+		for n*holeN+8 > len(base) {
+			n--
+		}
+		// pools
+		suit := "SHDC"[r.Intn(4)]
+		pick := func(pred func(c string) bool, k int, used map[string]bool) []string {
+			var pool []string
+			for _, c := range base {
+				if !used[c] && pred(c) {
+					pool = append(pool, c)
+				}
+			}
+			r.Shuffle(len(pool), func(i, j int) { pool[i], pool[j] = pool[j], pool[i] })
+			if len(pool) > k {
+				pool = pool[:k]
+			}
+			for _, c := range pool {
+				used[c] = true
+			}
+			return pool
+		}
+		any := func(c string) bool { return true }
+		used := map[string]bool{}
+		var board []string
+		lo := rankOf[base[0][1]] // lowest rank of the deck
+		switch r.Intn(7) {
+		case 0: // monotone board
+			board = pick(func(c string) bool { return c[0] == suit }, 5, used)
+		case 1: // paired / trips / quads on board
+			ra, rb := base[r.Intn(len(base))][1], base[r.Intn(len(base))][1]
+			board = pick(func(c string) bool { return c[1] == ra || c[1] == rb }, 3+r.Intn(3), used)
+		case 2: // connected
+			start := lo + r.Intn(15-lo-4)
+			board = pick(func(c string) bool { return rankOf[c[1]] >= start && rankOf[c[1]] <= start+5 }, 5, used)
+		case 3: // wheel-ish: A + the lowest ranks
+			board = pick(func(c string) bool { return rankOf[c[1]] == 14 || rankOf[c[1]] <= lo+3 }, 5, used)
+		case 4: // four to a flush and connected
+			board = pick(func(c string) bool { return c[0] == suit && rankOf[c[1]] >= 9 }, 4, used)
+		default:
+		}
+		board = append(board, pick(any, 5-len(board), used)...)
+		r.Shuffle(len(board), func(i, j int) { board[i], board[j] = board[j], board[i] })
+		holes := make([][]string, n)
+		for i := 0; i < n; i++ {
+			var h []string
+			switch r.Intn(4) {
+			case 0: // suited with the board's dominant suit
+				h = pick(func(c string) bool { return c[0] == suit }, holeN, used)
+			case 1: // ranks of the board (sets, full houses, quads)
+				h = pick(func(c string) bool {
+					for _, b := range board {
+						if b[1] == c[1] {
+							return true
+						}
+					}
+					return false
+				}, holeN, used)
+			case 2: // low cards and aces
+				h = pick(func(c string) bool { return rankOf[c[1]] == 14 || rankOf[c[1]] <= lo+3 }, holeN, used)
+			}
+			h = append(h, pick(any, holeN-len(h), used)...)
+			holes[i] = h
+		}
+		burn := pick(any, 3, used)
+		var deck []string
+		for i := 0; i < n; i++ {
+			deck = append(deck, holes[i]...)
+		}
+		deck = append(deck, burn[0], board[0], board[1], board[2], burn[1], board[3], burn[2], board[4])
+		deck = append(deck, pick(any, len(base), used)...)
+		c := HCfg{Ante: 0, Dealer: 0, SB: 1, BB: 2, Limit: "no", HoleN: holeN, ReqHole: req, Ranking: "standard", DeckKind: "std",
+			Pos: rolePositions(n, r.Intn(n), false), Deck: deck}
+		if short {
+			c.Ranking, c.DeckKind = "short", "short"
+		}
+		if r.Intn(6) == 0 { // a mismatched table is legal too: standard table on the short deck
+			c.Ranking = "standard"
+		}
+		for i := 0; i < n; i++ {
+			c.Bank = append(c.Bank, 1000)
+		}
+		hs = append(hs, sweepOne(tw, 8000000+k, c, r, true))
+	}
+	tw.close()
+	if *scripts != "" {
+		writeScripts(*scripts, hs)
+	}
+	b, _ := json.Marshal(M{"runs": len(hs), "lines": tw.lines})
+	fmt.Println(string(b))
+}
